@@ -524,7 +524,17 @@ func (s *State) diffIOSACLs(al, bl []*cmd, diff []edit.Range) {
 				p := s.printNetspocCmd(b)
 				p = stripLogRX.ReplaceAllLiteralString(p, "")
 				if cmdPos, found := delMap[p]; found {
-					moveACL(cmdPos, b, r.LowA, i, moveOK)
+					// If the line stays behind the insert position,
+					// a move may only be ignored, if no line with other
+					// action is inserted later at this position.
+					// It would be placed in front of the unmoved line.
+					ok := moveOK
+					if cmdPos.pos >= r.LowA {
+						for _, c := range bl[r.LowB+i+1 : r.HighB] {
+							ok = ok && action0 == getIOSAction(c)
+						}
+					}
+					moveACL(cmdPos, b, r.LowA, i, ok)
 				} else {
 					addACL(b, r.LowA, i)
 				}
